@@ -42,16 +42,21 @@ const (
 	opNewSettings
 	opVerifyMalformed
 	opProofIO
+	opSharedInputs
 	numOpKinds
 )
 
-var opNames = []string{"Commit", "CreateMultiProof", "CheckMultiProof", "Create+CheckIPAProof", "MultiScalar/MultiExp", "element-ops", "batch-helpers", "transcript", "fr-bigint-pool", "point-codec", "fp-sqrt", "parallel.Execute", "GenerateRandomPoints", "NewIPASettings", "CheckMultiProof(malformed)", "proof-read-write-reuse"}
+var opNames = []string{"Commit", "CreateMultiProof", "CheckMultiProof", "Create+CheckIPAProof", "MultiScalar/MultiExp", "element-ops", "batch-helpers", "transcript", "fr-bigint-pool", "point-codec", "fp-sqrt", "parallel.Execute", "GenerateRandomPoints", "NewIPASettings", "CheckMultiProof(malformed)", "proof-read-write-reuse", "shared-read-only-inputs"}
 
 type opCtx struct {
 	env    *Env
 	seed   int64
 	base   *Pool
 	polysV [][]*big.Int // shared immutable reference values; every op makes private library copies
+	// objects that several goroutines pass to read-only APIs at the same time (C12) - never written by the harness after creation
+	sharedScalars []fr.Element
+	sharedPoints  []banderwagon.Element
+	sharedPoly    []fr.Element
 	// inputModified is called when an operation finds a caller-supplied input changed after a call (C13); nil = not checked
 	inputModified func(sig, msg string)
 }
@@ -62,6 +67,12 @@ func newOpCtx(env *Env, seed int64, rng *rand.Rand) *opCtx {
 		v, _ := makePoly(rng, k)
 		o.polysV = append(o.polysV, v)
 	}
+	for i := 0; i < 8; i++ {
+		o.sharedScalars = append(o.sharedScalars, FrFromBig(randScalar(rng)))
+		norm := ElemFromRef(o.base.P[i], nil, false)
+		o.sharedPoints = append(o.sharedPoints, Rerepresent(&norm, i, rng))
+	}
+	o.sharedPoly = toFr(o.polysV[0])
 	return o
 }
 
@@ -681,6 +692,55 @@ func (o *opCtx) exec(kind, k int) string {
 			o.modified("input-modified/IPAProof.Read/earlier-copy", "reading a second proof into an IPAProof changed a copy made before the call")
 		}
 		d.add(w4.Bytes())
+	case opSharedInputs:
+		// APIs that only READ their arguments are called on objects shared by all goroutines
+		tr := common.NewTranscript("shared")
+		for i := range o.sharedScalars {
+			tr.AppendScalar(&o.sharedScalars[(i+k)%len(o.sharedScalars)], []byte("s"))
+			tr.AppendPoint(&o.sharedPoints[(i+k)%len(o.sharedPoints)], []byte("p"))
+		}
+		ch := tr.ChallengeScalar([]byte("c"))
+		cb := ch.Bytes()
+		d.add(cb[:])
+		for i := range o.sharedPoints {
+			p := &o.sharedPoints[i]
+			d.elem(p)
+			var m fr.Element
+			p.MapToScalarField(&m)
+			mb := m.Bytes()
+			d.add(mb[:])
+			d.addf("%v", p.Equal(&o.sharedPoints[(i+1)%len(o.sharedPoints)]))
+			sb := o.sharedScalars[i].BytesLE()
+			d.add(sb[:])
+			d.addf("%s %d", o.sharedScalars[i].String(), o.sharedScalars[i].Cmp(&o.sharedScalars[(i+1)%len(o.sharedScalars)]))
+		}
+		r1, err := ipa.MultiScalar(o.sharedPoints, o.sharedScalars)
+		d.addf("err=%v", err != nil)
+		d.elem(&r1)
+		ptrs := make([]*banderwagon.Element, len(o.sharedPoints))
+		for i := range ptrs {
+			ptrs[i] = &o.sharedPoints[i]
+		}
+		for _, b := range banderwagon.ElementsToBytes(ptrs...) {
+			d.add(b[:])
+		}
+		rs := make([]fr.Element, len(ptrs))
+		res := make([]*fr.Element, len(ptrs))
+		for i := range res {
+			res[i] = &rs[i]
+		}
+		banderwagon.BatchMapToScalarField(res, ptrs)
+		for i := range rs {
+			b := rs[i].Bytes()
+			d.add(b[:])
+		}
+		if env != nil {
+			c := env.Conf.Commit(o.sharedPoly)
+			d.elem(&c)
+			q := env.Conf.PrecomputedWeights.DivideOnDomain(uint8(k%256), o.sharedPoly)
+			qb := q[(k*7)%256].Bytes()
+			d.add(qb[:])
+		}
 	case opNewSettings:
 		conf, err := ipa.NewIPASettings()
 		d.addf("err=%v", err != nil)
